@@ -869,7 +869,7 @@ impl Property for P15 {
     }
 
     fn real_components() -> Vec<&'static str> {
-        vec!["minicbor_io::AsyncReader (read, read_with, with_buffer, set_max_len)", "futures_util AsyncReadExt::read future", "minicbor Decoder + Decode impls of the payload families (incl. derive-generated)", "minicbor::to_vec (reference encoding)"]
+        vec!["minicbor_io::AsyncReader (read, read_with, with_buffer, set_max_len)", "futures_util AsyncReadExt::read future", "minicbor Decoder + Decode impls of the payload families (incl. derive-generated)", "minicbor::encode into a Vec (reference encoding)"]
     }
 
     fn stub_components() -> Vec<&'static str> {
